@@ -16,8 +16,9 @@ EXPLANATION = (
     "event, 'valid' is disjoint from the clamps, low angles use the table's first beta node, high "
     "angles the float32-eps constant; R04.3 no table look-up disables bounds errors or sets a fill "
     "value; R04.4 the i-th interpolation coordinate comes from the parameter whose role is the i-th "
-    "table axis; R04.5 the result is z * 10**log_e_nu and the sampler returns the iterator's allocated "
-    "operand; R04.6 the bracketing structure of the row-wise inversion (complementary masks, paired "
+    "table axis; R04.5 the result is z * 10**log_e_nu and the sampler returns the iterator's output "
+    "operand (allocated or supplied); R04.8 a supplied result array has a floating element type that does not come "
+    "from the energies; R04.6 the bracketing structure of the row-wise inversion (complementary masks, paired "
     "(x0,y0)/(x1,y1), linear formula). NOT decided: F(z)=u numerically, monotonicity in u, z within "
     "the tabulated range (values; table preconditions are audited under C18)."
 )
